@@ -30,8 +30,9 @@ import (
 )
 
 type Ctx struct {
-	Tag   int `json:"tag"`
-	Group int `json:"g"` // 0 = "", 1 = "a", 2 = "b"
+	Tag   int  `json:"tag"`
+	Group int  `json:"g"`              // 0 = "", 1 = "a", 2 = "b"
+	Sync  bool `json:"sync,omitempty"` // a kubernetes Synchronization context (classes "op" and "sync" only)
 }
 
 type Task struct {
@@ -44,6 +45,23 @@ type Task struct {
 	// classes "set" and "op" only (the single-queue class uses one queue "main" and tasks that carry "main"):
 	Qn   int `json:"qn,omitempty"`   // the queue the task sits in (index into queueNames; 1 = "main")
 	Name int `json:"name,omitempty"` // the queue name the task CARRIES, GetQueueName() (0 = "")
+	// classes "op" and "sync" only: three more fields of HookMetadata the task handler reads
+	Kube  bool `json:"kube,omitempty"`  // BindingType is kubernetes (otherwise schedule)
+	Group int  `json:"group,omitempty"` // HookMetadata.Group (index into groups)
+	Exec  bool `json:"exec,omitempty"`  // ExecuteOnSynchronization
+}
+
+// KB is one kubernetes binding of a hook of class "sync" (binding j of hook h is named k<100h+j>, its
+// monitor is numbered 100h+j, its Synchronization context carries the tag 100h+j).
+type KB struct {
+	Group int  `json:"g"`
+	Exec  bool `json:"exec"` // executeHookOnSynchronization
+}
+
+// HookCfg is the config of hook h<i+1>.sh of class "sync".
+type HookCfg struct {
+	V0   bool `json:"v0,omitempty"` // a v0 config (no configVersion): no groups, never executed on Synchronization
+	Kube []KB `json:"kube"`
 }
 
 // Step is one step of a session on the real operator (class "op").
@@ -59,7 +77,9 @@ type Step struct {
 
 // Input: Kind "" = one queue handed to the function directly (T, Stop, Q, App);
 // "set" = a set of named queues, lookup by the executed task's name (T, Stop, Queues, Q with qn/name, App with qn);
-// "op" = a session on the real operator (Queues, Q, Steps).
+// "op" = a session on the real operator (Queues, Q, Steps);
+// "sync" = a session on a real operator assembled for the case on a fake cluster, with the hooks Hooks: the tasks of Q
+// that are Synchronization tasks are the REAL tasks made by the real EnableKubernetesBindings task (Hooks, Queues, Q, Steps).
 type Input struct {
 	Kind   string `json:"kind,omitempty"`
 	T      Task   `json:"t"`
@@ -68,6 +88,7 @@ type Input struct {
 	App    []Task `json:"app"`
 	Queues []int  `json:"queues,omitempty"`
 	Steps  []Step `json:"steps,omitempty"`
+	Hooks  []HookCfg `json:"hooks,omitempty"`
 }
 
 type Res struct {
@@ -116,8 +137,9 @@ func mk(t Task) task.Task {
 }
 
 func unCtx(bc bctx.BindingContext) Ctx {
-	c := Ctx{Tag: 999999, Group: 99}
-	if strings.HasPrefix(bc.Binding, "c") {
+	c := Ctx{Tag: 999999, Group: 99, Sync: bc.IsSynchronization()}
+	// c<tag>: a context made by the harness; k<tag>: the context of a real kubernetes binding (class "sync")
+	if strings.HasPrefix(bc.Binding, "c") || strings.HasPrefix(bc.Binding, "k") {
 		if n, err := strconv.Atoi(bc.Binding[1:]); err == nil {
 			c.Tag = n
 		}
@@ -203,13 +225,20 @@ func Run(in Input) Observation {
 		return Observation{Int: i, Exp: e, IntQueues: iq, ExpQueues: eq}
 	case "op":
 		return runOp(in)
+	case "sync":
+		return runSync(in)
 	}
 	return Observation{Int: runOne(in, false), Exp: runOne(in, true)}
 }
 
 // ---- rendering ----
 
-func coqCtx(c Ctx) string { return fmt.Sprintf("C %d %d", c.Tag, c.Group) }
+func coqCtx(c Ctx) string {
+	if c.Sync {
+		return fmt.Sprintf("CS %d %d", c.Tag, c.Group)
+	}
+	return fmt.Sprintf("C %d %d", c.Tag, c.Group)
+}
 func coqTask(t Task) string {
 	return fmt.Sprintf("T %d %d %d %s %s %s", t.Id, t.Hook, t.Ty, core.CoqBool(!t.NoMeta),
 		core.CoqList(t.Ctxs, coqCtx), core.CoqList(t.Mids, core.CoqN))
@@ -251,7 +280,7 @@ func Render(in Input, obs *Observation, crash string) core.Case {
 	switch in.Kind {
 	case "set":
 		return renderSet(in, obs, crash)
-	case "op":
+	case "op", "sync":
 		return renderOp(in, obs, crash)
 	}
 	var o Observation
@@ -524,6 +553,9 @@ func exhaustive(maxLen int) []Input {
 
 func Gen(r *core.Rng, tier string) ([]core.In[Input], bool) {
 	var corpus, ins []core.In[Input]
+	for _, c := range SyncCorpus() {
+		corpus = append(corpus, core.In[Input]{Input: c, Stream: "corpus"})
+	}
 	for _, c := range OpCorpus() {
 		corpus = append(corpus, core.In[Input]{Input: c, Stream: "corpus"})
 	}
@@ -534,12 +566,12 @@ func Gen(r *core.Rng, tier string) ([]core.In[Input], bool) {
 		corpus = append(corpus, core.In[Input]{Input: c, Stream: "corpus"})
 	}
 	g := &gen{r: r}
-	nRandom, nSet, nOp := 500, 600, 300
+	nRandom, nSet, nOp, nSync := 500, 600, 300, 260
 	switch tier {
 	case "thorough":
-		nRandom, nSet, nOp = 20000, 12000, 2000
+		nRandom, nSet, nOp, nSync = 20000, 12000, 2000, 3000
 	case "search":
-		nRandom, nSet, nOp = 3000, 3000, 600
+		nRandom, nSet, nOp, nSync = 3000, 3000, 600, 800
 	}
 	for i := 0; i < nRandom; i++ {
 		if i%10 == 9 {
@@ -553,8 +585,13 @@ func Gen(r *core.Rng, tier string) ([]core.In[Input], bool) {
 	}
 	// the sessions run real hook processes: spread them evenly over the workers' chunks
 	var ops []core.In[Input]
-	for i := 0; i < nOp; i++ {
-		ops = append(ops, core.In[Input]{Input: g.opSession(), Stream: "op"})
+	for i := 0; i < nOp || i < nSync; i++ {
+		if i < nOp {
+			ops = append(ops, core.In[Input]{Input: g.opSession(), Stream: "op"})
+		}
+		if i < nSync {
+			ops = append(ops, core.In[Input]{Input: g.syncSession(), Stream: "sync"})
+		}
 	}
 	if len(ops) > 0 {
 		var mixed []core.In[Input]
